@@ -9,7 +9,7 @@ def READERS():       # raw rows from the four containers and their dispatch
     return [RDL.unit_delimited_rows(), RDL.unit_as_delimited_keywords(), TL.unit_compat_csv(), FX.unit_fixed_rows(), OD.unit_ods_rows(), XL.unit_excel_rows(), XL.unit_excel_cell_value(), VIO.unit_raw_rows(), IF.unit_field_names_and_lengths()]
 
 def VALIDATION():    # row / cell validation and the reader driving it
-    return [VIO.unit_validate_row(), VIO.unit_reader_rows(), VIO.unit_reader_init(), VIO.unit_reader_close(), VIO.unit_reset_checks(), VIO.unit_validate_rows(), VIO.unit_close(), VIO.unit_validator_exit(), VIO.unit_module_rows_validate(),
+    return [VIO.unit_validate_row(), VIO.unit_reader_rows(), VIO.unit_reader_init(), VIO.unit_reset_checks(), VIO.unit_validate_rows(), VIO.unit_close(), VIO.unit_validator_exit(), VIO.unit_module_rows_validate(),
             F.unit_validated(), F.unit_validate_characters(), F.unit_validate_empty(), F.unit_validate_length(), R.unit_range_validate(), ER.unit_location_copy_and_str(), ST.unit_field_class_structure()]
 
 def CHECKS():        # the two built-in checks at run time
